@@ -9,7 +9,7 @@
 //!   18003 ROUNDTRIP  ps = [dbg rk tcode has_prex model has_prer | shx(10) | shr(10)]
 //!                    vs = [13::Fx ; 13::SX ; 13::Fr ; 13::S0]
 //!                    out = [[woc_x oc woc_after acc] ; 13::written ; 13::dump_after ; 15::raw_after]
-//!   18004 DIST       ps = [tag payload]      out = [[woc oc tag' payload'] ; 13::bytes]
+//!   18004 DIST       ps = [tag payload model]      out = [[woc oc tag' payload'] ; 13::bytes]
 //! sh = [n base2k k rank_in rank_out dnum dsize nkeys aux fillseed]   (meaning per type: see `make`)
 //! F = write_to of the freshly allocated object (fixes the capacities); S0 = optional first stream read into it.
 //! The state of an object is observed through its own `write_to` (under catch_unwind: the words written before an
@@ -879,7 +879,7 @@ impl Gen {
             for _ in 0..4 { pays.push((self.rng.below(1 << 52) as f64 / (1u64 << 52) as f64).to_bits()); }
             for q in pays {
                 if (tag == 1 || tag == 3) && f64::from_bits(q).is_nan() { continue; }
-                self.out.push(Rec::new(18004, vec![tag, q as i128], vec![]));
+                self.out.push(Rec::new(18004, vec![tag, q as i128, self.model], vec![]));
             }
         }
     }
